@@ -41,7 +41,7 @@ pub struct RefModel {
     pub bids: Vec<Rest>,
     pub asks: Vec<Rest>,
     pub seq: u64,
-    pub trade_vol: u32,
+    pub trade_vol: u64,
 }
 
 impl RefModel {
@@ -143,7 +143,7 @@ impl RefModel {
             let f = vol.min(pvol);
             self.orders[id].vol -= f;
             self.orders[r.id].vol -= f;
-            self.trade_vol += f;
+            self.trade_vol += f as u64;
             self.trades.push(TradeRec {
                 t: self.t,
                 bid: !bid,
@@ -296,15 +296,15 @@ impl RefModel {
 
     pub fn level(&self, bid: bool, price: u64) -> (u32, u32) {
         let v = if bid { &self.bids } else { &self.asks };
-        let mut vol = 0u32;
+        let mut vol = 0u64;
         let mut n = 0u32;
         for r in v.iter() {
             if r.price as u64 == price {
-                vol += self.orders[r.id].vol;
+                vol += self.orders[r.id].vol as u64;
                 n += 1;
             }
         }
-        (vol, n)
+        (vol.min(u32::MAX as u64) as u32, n)
     }
 
     pub fn levels(&self, bid: bool, n: usize) -> Vec<(u32, u32)> {
@@ -464,7 +464,7 @@ impl RefModel {
                 ),
             );
         }
-        if v.trade_vol != self.trade_vol {
+        if v.trade_vol as u64 != self.trade_vol {
             return bad(
                 "trade-vol-counter",
                 format!("impl {} model {}", v.trade_vol, self.trade_vol),
